@@ -120,6 +120,14 @@ class Built:
             if s == "-":
                 parts.append("int")
                 continue
+            if s in ("-n", "-v", "-s"):
+                # a plain position spelled with a typing OBJECT that is neither a class nor a subscripted generic
+                import typing as _t
+
+                self.ns.setdefault("PLAIN_NEWTYPE", _t.NewType("UserId", int))
+                self.ns.setdefault("PLAIN_TYPEVAR", _t.TypeVar("PlainT"))
+                parts.append({"-n": "PLAIN_NEWTYPE", "-v": "PLAIN_TYPEVAR", "-s": "typing.LiteralString"}[s])
+                continue
             if s == "-u":
                 parts.append("int | str")          # a PEP 604 union of plain types (no tensor in it: nothing for the checker)
                 continue
